@@ -128,18 +128,31 @@ fn leaf(kind: u8, id: u32) -> BodyStructure<'static> {
                 in_reply_to: None,
                 message_id: None,
             },
-            // the encapsulated body is a single text part carrying an id no selector uses
-            body: Box::new(BodyStructure::Text {
-                common: common("TEXT", "PLAIN"),
-                other: BodyContentSinglePart {
-                    id: None,
-                    md5: None,
-                    description: None,
-                    transfer_encoding: ContentEncoding::SevenBit,
-                    octets: u32::MAX,
-                },
-                lines: 1,
-                extension: None,
+            // the encapsulated body carries ids no selector uses; it is a single text part or - for every
+            // other message leaf - a multipart of 1..3 text parts (a walker that descends into the
+            // encapsulated multipart must still report the message part itself under its own specifier)
+            body: Box::new({
+                let inner = |_: u32| BodyStructure::Text {
+                    common: common("TEXT", "PLAIN"),
+                    other: BodyContentSinglePart {
+                        id: None,
+                        md5: None,
+                        description: None,
+                        transfer_encoding: ContentEncoding::SevenBit,
+                        octets: u32::MAX,
+                    },
+                    lines: 1,
+                    extension: None,
+                };
+                if id % 2 == 0 {
+                    inner(0)
+                } else {
+                    BodyStructure::Multipart {
+                        common: common("MULTIPART", "EMBEDDED"),
+                        bodies: (0..(1 + id % 3)).map(inner).collect(),
+                        extension: None,
+                    }
+                }
             }),
             lines: 1,
             extension: None,
